@@ -173,6 +173,12 @@ Section Validate.
 
   Definition v_block_in_state (b : block) (s : cstate) : res unit :=
     if (Z.of_N (b_height b) <=? p_hz P)%Z then
+      (* the checkpoint shortcut applies to a block AT that height in the chain: a declared height that is not the
+         parent's plus one is rejected first (fix recorded in known_findings.json) *)
+      do _ <- match cs_blocks s !! b_prev b with
+              | Some prev => check (b_height b =? b_height prev + 1) EValidation
+              | None => Ok tt
+              end;
       match known_hash (p_known P) (b_height b) with
       | Some kh => check (bytes_eqb (block_id sha b) kh) EValidation
       | None => Ok tt
